@@ -40,9 +40,12 @@ type fsFix struct {
 	t     *quietT
 	gs    string
 	P     *test.Node
+	P2    *test.Node // proposes another block of height 1 (B2) that is never voted by honest validators
 	F     *test.Node // the syncing node, at height 1, holding no precommits
 	blk1  module.Block
 	real  *consensus.PartSetID
+	blk2  module.BlockCandidate
+	real2 *consensus.PartSetID
 	addrs [][]byte
 	kr    *keyring
 	vals  []int
@@ -82,6 +85,23 @@ func newFsFix(kr *keyring, vals []int) (*fsFix, error) {
 		return f, err
 	}
 	f.real = psb.PartSet().ID()
+	f.P2 = test.NewNode(t, test.UseGenesis(f.gs), test.UseWallet(nodeWallet("P2")))
+	f.P2.Chain.Logger().SetLevel(log.FatalLevel)
+	f.blk2 = f.P2.ProposeBlock(consensus.NewEmptyCommitVoteList())
+	if len(t.errs) > 0 || f.blk2 == nil {
+		return f, fmt.Errorf("fixture set-up failed (second block)")
+	}
+	psb2 := consensus.NewPartSetBuffer(consensus.ConfigBlockPartSize)
+	if err := f.blk2.MarshalHeader(psb2); err != nil {
+		return f, err
+	}
+	if err := f.blk2.MarshalBody(psb2); err != nil {
+		return f, err
+	}
+	f.real2 = psb2.PartSet().ID()
+	if bytes.Equal(f.blk2.ID(), f.blk1.ID()) || f.real2.Equal(f.real) {
+		return f, fmt.Errorf("fixture: the two blocks of height 1 do not differ")
+	}
 	blk0, err := f.P.BM.GetBlockByHeight(0)
 	if err != nil {
 		return f, err
@@ -105,6 +125,9 @@ func (f *fsFix) close() {
 	if f.P != nil {
 		hxlib.Catch(func() { f.P.Close() })
 	}
+	if f.P2 != nil {
+		hxlib.Catch(func() { f.P2.Close() })
+	}
 	if f.F != nil {
 		hxlib.Catch(func() { f.F.Close() })
 	}
@@ -113,7 +136,11 @@ func (f *fsFix) close() {
 // receive: hand (block 1, list) to the syncing node.  After a consumed block the
 // node commits it; wait for that and replace the node by a fresh one.
 func (f *fsFix) receive(cvl []byte) (consumed bool, pnc string, err error) {
-	br := &fakeBR{blk: f.blk1, votes: cvl}
+	return f.receiveBlock(f.blk1, cvl)
+}
+
+func (f *fsFix) receiveBlock(blk module.BlockData, cvl []byte) (consumed bool, pnc string, err error) {
+	br := &fakeBR{blk: blk, votes: cvl}
 	pnc = hxlib.Catch(func() { f.F.CS.(blockReceiver).ReceiveBlockResult(br) })
 	if pnc != "" {
 		return false, pnc, nil
@@ -195,12 +222,19 @@ var fsKinds = []string{"", "", "foreign-key", "wrong-round+1", "wrong-bid-bit", 
 	"wrong-height+1", "tamper-s", "unrec-empty", "unrec-zero65", "dup-same", "dup-newts", "other-part-set", "app-data"}
 
 func genFastSync(x *hxlib.Ctx, kr *keyring) {
-	ns := []int{4}
+	// every validator count 1..10 (the multiples of three are where "more than two
+	// thirds" and "at least two thirds" differ); the full set of bad-item kinds on
+	// one of them (all of them in the thorough tier), the threshold subsets and the
+	// history scenarios on all
+	ns := []int{1, 2, 3, 4, 5, 6, 7, 8, 9, 10}
+	full := map[int]bool{4: true}
 	if x.Tier == "thorough" {
-		ns = []int{1, 3, 4, 7, 10}
+		for _, n := range ns {
+			full[n] = true
+		}
 	}
 	if x.OracleOnly {
-		ns = []int{1 + x.Rand.Intn(6)}
+		ns = []int{3, 6, 1 + x.Rand.Intn(10)}
 	}
 	restore := silenceStderr()
 	defer restore()
@@ -229,7 +263,10 @@ func genFastSync(x *hxlib.Ctx, kr *keyring) {
 			if k > n || broken {
 				continue
 			}
-			for _, kind := range fsKinds {
+			for ki, kind := range fsKinds {
+				if !full[n] && ki >= 2 && r.Intn(8) != 0 {
+					continue
+				}
 				round++ // every list has its own round: precommits of refused lists stay in the node, by round
 				ps := f.real.WithAppData(0)
 				if kind == "app-data" {
@@ -284,6 +321,9 @@ func genFastSync(x *hxlib.Ctx, kr *keyring) {
 					break
 				}
 			}
+		}
+		if !broken {
+			f.genHist(x, r)
 		}
 		f.close()
 	}
